@@ -176,3 +176,71 @@ Proof.
            tok_no_family rank ranked closed uniform a i j).
 Qed.
 Print Assumptions C05_optimal_graph.
+
+(* ---- the same with ForestSumVisitor's own annotation (Forest/GraphSum.v): no hypothesis on priorities is left,
+   and the side conditions are decidable: [rk] a rank table witnessing acyclicity (children rank below their
+   parent, ranks bounded by M), every referenced symbol node has a packed child, emptiness uniform per node, token
+   nodes have no packed children.  pr_sv / prf_sv are the recursive reading of the visitor (token: its priority;
+   packed: rule priority under a completed symbol + children; symbol: max). *)
+From LV Require Import Forest.GraphSum Forest.GraphSum_proofs.
+
+Theorem C05_optimal_graph_walk (tok : Type) (teqb : tok -> tok -> bool)
+  (teqb_spec : forall a b, teqb a b = true <-> a = b)
+  (fams : list (nlabel tok * family tok)) (rprio rorder : rule -> Z) (tprio : nat -> tok -> Z)
+  (rk : nlabel tok -> nat) (M : nat) :
+  rankedb tok fams rk M = true -> closedb tok teqb fams = true -> uniformb' tok teqb fams = true ->
+  notokb tok fams = true ->
+  forall a i j, fams_of tok teqb fams (NSym tok a i j) <> [] ->
+  exists d, graph_resolve tok teqb fams (order_key tok rorder (prf_sv tok teqb fams rprio tprio M)) (NSym tok a i j)
+            = Some d /\
+            den tok (in_forest tok fams) (NSym tok a i j) [d] /\
+            gprio tok rprio tprio d = pr_sv tok teqb fams rprio tprio M (NSym tok a i j) /\
+            forall d', den tok (in_forest tok fams) (NSym tok a i j) [d'] ->
+                       gprio tok rprio tprio d' <= gprio tok rprio tprio d.
+Proof.
+  intros H1 H2 H3 H4. exact (graph_resolve_optimal_sv tok teqb teqb_spec fams rprio rorder tprio rk M H1 H2 H3 H4).
+Qed.
+Print Assumptions C05_optimal_graph_walk.
+
+(* non-vacuity: start: a | b   a.1: X   b.2: X  on "x" - a graph forest with a SHARED token node, two alternatives
+   of different priority; all side conditions hold and the later, higher-priority alternative is returned *)
+Local Open Scope nat_scope.
+Definition gS := NSym nat 0 0 1.
+Definition gA := NSym nat 1 0 1.
+Definition gB := NSym nat 2 0 1.
+Definition gX := NTok nat 0 7 0 1.
+Definition g_r0 := Grammar.mkRule 0 [NT 1].
+Definition g_r1 := Grammar.mkRule 0 [NT 2].
+Definition g_ra := Grammar.mkRule 1 [T 0].
+Definition g_rb := Grammar.mkRule 2 [T 0].
+Definition g_fams : list (nlabel nat * family nat) :=
+  [(gS, (g_r0, None, Some gA)); (gS, (g_r1, None, Some gB)); (gA, (g_ra, None, Some gX)); (gB, (g_rb, None, Some gX))].
+Definition g_rprio (r : rule) : Z := match lhs r with 1 => 1%Z | 2 => 2%Z | _ => 0%Z end.
+Definition g_rorder (r : rule) : Z := match rhs r with [NT 2] => 1%Z | _ => 0%Z end.
+Definition g_tprio (t x : nat) : Z := 0%Z.
+Definition g_rk (l : nlabel nat) : nat :=
+  match l with NSym _ 0 _ _ => 2 | NSym _ _ _ _ => 1 | _ => 0 end.
+
+Example C05_optimal_graph_example :
+  rankedb nat g_fams g_rk 2 = true /\ closedb nat Nat.eqb g_fams = true /\ uniformb' nat Nat.eqb g_fams = true /\
+  notokb nat g_fams = true /\
+  graph_resolve nat Nat.eqb g_fams (order_key nat g_rorder (prf_sv nat Nat.eqb g_fams g_rprio g_tprio 2)) gS
+    = Some (DN nat g_r1 [DN nat g_rb [DL nat 0 7]]) /\
+  pr_sv nat Nat.eqb g_fams g_rprio g_tprio 2 gS = 2%Z /\
+  gprio nat g_rprio g_tprio (DN nat g_r0 [DN nat g_ra [DL nat 0 7]]) = 1%Z.
+Proof. vm_compute. repeat split; reflexivity. Qed.
+
+(* Not proved (kept as a statement): the coded single-visit WALK of ForestSumVisitor (Forest/GraphSum.v [svw]: visited
+   set, path, packed priorities computed at visit_packed_node_out from what the children carry at that moment)
+   leaves, on an acyclic closed forest, exactly the annotation pr_sv / prf_sv that C05_optimal_graph_walk uses.
+   Tied on every run: the walk model = node.priority / packed.priority after lark's real ForestSumVisitor on the
+   exported graph (cyclic forests included), and the walk model = pr_sv on the acyclic ones (gsum_diag codes 1-3). *)
+Definition C05_sum_walk_eq_recursive_full_statement : Prop :=
+  forall (tok : Type) (teqb : tok -> tok -> bool), (forall a b, teqb a b = true <-> a = b) ->
+  forall (fams : list (nlabel tok * family tok)) (rprio rorder : rule -> Z) (tprio : nat -> tok -> Z)
+         (rk : nlabel tok -> nat) (M : nat),
+  rankedb tok fams rk M = true -> closedb tok teqb fams = true -> notokb tok fams = true ->
+  forall root lbl,
+    let st := sum_walk tok teqb fams rprio rorder tprio root in
+    look_sym tok teqb (sv_sym tok st) lbl <> None ->
+    walk_pr tok teqb tprio st lbl = pr_sv tok teqb fams rprio tprio M lbl.
